@@ -425,6 +425,8 @@ func explore(c *mc.Ctx, p plan, pi int) {
 	outcomes := map[string]struct{}{}
 	var refused, judgedEpochs int64
 	var sampled bool
+	var sampleKey string
+	var sample interface{}
 	st := mc.Explore(c, budget, mc.Workers(), func(ch *mc.Chooser) {
 		res, err := run(t, epochs, ch, false)
 		if err != nil {
@@ -444,12 +446,18 @@ func explore(c *mc.Ctx, p plan, pi int) {
 			}
 		}
 		judgedEpochs += int64(res.epochsDone)
-		if !sampled && pi == 4 && ch.Deviations() == 2 && res.epochsDone == epochs && len(res.moves) >= 3 {
-			sampled = true
-			c.Sample(map[string]interface{}{"setup": t.String(), "epochs": res.trace})
+		if pi == 4 && ch.Deviations() == 2 && res.epochsDone == epochs && len(res.moves) >= 3 {
+			// the written-out case is the qualifying execution with the smallest choice list
+			if k := fmt.Sprintf("%03d", ch.Choices()); !sampled || k < sampleKey {
+				sampled, sampleKey = true, k
+				sample = map[string]interface{}{"setup": t.String(), "epochs": res.trace}
+			}
 		}
 		mu.Unlock()
 	})
+	if sampled {
+		c.Sample(sample)
+	}
 	for m := range moves {
 		c.Nontrivial(fmt.Sprintf("%v:%s", t, m))
 	}
